@@ -62,11 +62,34 @@ def ident(x):
     return LETTERS[base] + ("_%d" % k if k else "")
 
 
+NILABLE = [False]   # printing mode of the c31.cond family: nil is encoded as 0, conditions test truthiness
+
+
+def lit(x):
+    return "nil" if NILABLE[0] and x == "0" else x
+
+
+def plain_cond(c):
+    """condition inside an unhygienic quote: markers dropped"""
+    k = c[0]
+    if k == "e":
+        return plain_expr(c[1])
+    if k == "not":
+        return "!" + plain_cond(c[1])
+    if k == "and":
+        return "(%s && %s)" % (plain_cond(c[1]), plain_cond(c[2]))
+    if k == "or":
+        return "(%s || %s)" % (plain_cond(c[1]), plain_cond(c[2]))
+    if k == "cu":
+        return plain_cond(c[1])
+    raise ValueError(c)
+
+
 def plain_expr(e):
     """expression outside any quote (or inside an unhygienic quote): markers dropped"""
     k = e[0]
     if k == "n":
-        return e[1]
+        return lit(e[1])
     if k == "v":
         return ident(e[1])
     if k == "+":
@@ -120,7 +143,7 @@ class Printer:
         """splices is None outside macro bodies (markers are dropped there)"""
         k = e[0]
         if k == "n":
-            return e[1]
+            return lit(e[1])
         if k == "v":
             return ident(e[1])
         if k == "+":
@@ -136,15 +159,33 @@ class Printer:
             return "(%s = %s)" % (ident(e[1]), self.expr(e[2], splices))
         raise ValueError(e)
 
+    def cond(self, c, splices):
+        """a truthiness condition (c31.cond family); ['cu', c] is ONE unhygienic splice of the whole condition c"""
+        k = c[0]
+        if k == "e":
+            return self.expr(c[1], splices)
+        if k == "not":
+            return "!" + self.cond(c[1], splices)
+        if k == "and":
+            return "(%s && %s)" % (self.cond(c[1], splices), self.cond(c[2], splices))
+        if k == "or":
+            return "(%s || %s)" % (self.cond(c[1], splices), self.cond(c[2], splices))
+        if k == "cu":
+            if splices is None:
+                return self.cond(c[1], None)
+            splices.append(plain_cond(c[1]))
+            return "!{u%d}" % (len(splices) - 1)
+        raise ValueError(c)
+
     def one_line(self, s):
         """statement printed on one line with all markers dropped (content of an unhygienic quote)"""
         k = s[0]
         if k == "let":
-            return "%s := %s" % (ident(s[1]), plain_expr(s[2]))
+            return ("var %s: Int? = %s" if NILABLE[0] else "%s := %s") % (ident(s[1]), plain_expr(s[2]))
         if k == "set":
             return "%s = %s" % (ident(s[1]), plain_expr(s[2]))
         if k == "pr":
-            return "println(%s.inspect)" % plain_expr(s[1])
+            return ('println("#{%s}")' if NILABLE[0] else "println(%s.inspect)") % plain_expr(s[1])
         if k == "ex":
             return plain_expr(s[1])
         if k == "mac":
@@ -165,17 +206,34 @@ class Printer:
         p = "  " * ind
         k = s[0]
         if k == "let":
-            return [p + "%s := %s" % (ident(s[1]), self.expr(s[2], splices))]
+            return [p + ("var %s: Int? = %s" if NILABLE[0] else "%s := %s") % (ident(s[1]), self.expr(s[2], splices))]
         if k == "set":
             return [p + "%s = %s" % (ident(s[1]), self.expr(s[2], splices))]
         if k == "pr":
-            return [p + "println(%s.inspect)" % self.expr(s[1], splices)]
+            return [p + ('println("#{%s}")' if NILABLE[0] else "println(%s.inspect)") % self.expr(s[1], splices)]
+        if k.startswith("ifc."):
+            form = k[4:]
+            c = self.cond(s[1], splices)
+            if form in ("if", "unless"):
+                out = [p + "%s %s" % (form, c)] + self.block(s[2], ind + 1, splices)
+                if stmts_of(s[3]):
+                    out += [p + "else"] + self.block(s[3], ind + 1, splices)
+                return out + [p + "end"]
+            if form == "while":
+                return [p + "while " + c] + self.block(s[2], ind + 1, splices) + [p + "end"]
+            (one,) = stmts_of(s[2])
+            text = self.stmt(one, 0, splices)[0]
+            if form in ("modif", "modunless"):
+                return [p + "%s %s %s" % (text, form[3:], c)]
+            if one[0] == "set":
+                text = "(" + text + ")"
+            return [p + "%s %s %s" % (c, {"and": "&&", "or": "||", "nc": "??"}[form], text)]
         if k == "ex":
             return [p + self.expr(s[1], splices)]
         if k == "blk":
             return [p + "do"] + self.block(s[1], ind + 1, splices) + [p + "end"]
         if k == "if":
-            out = [p + "if %s > 0" % self.expr(s[1], splices)] + self.block(s[2], ind + 1, splices)
+            out = [p + ("if %s" if NILABLE[0] else "if %s > 0") % self.expr(s[1], splices)] + self.block(s[2], ind + 1, splices)
             if stmts_of(s[3]):
                 out += [p + "else"] + self.block(s[3], ind + 1, splices)
             return out + [p + "end"]
@@ -189,7 +247,15 @@ class Printer:
         raise ValueError(s)
 
 
-def elk_program(prog, in_method):
+def elk_program(prog, in_method, nilable=False):
+    NILABLE[0] = nilable
+    try:
+        return elk_program1(prog, in_method)
+    finally:
+        NILABLE[0] = False
+
+
+def elk_program1(prog, in_method):
     pr = Printer()
     body = pr.block(prog, 1 if in_method else 0, None)
     head = ["using Std::Elk::AST::*", ""] + pr.defs + [""]
@@ -462,6 +528,144 @@ def gen_family(rng, idx):
     return progs, g.dist
 
 
+# ------------------------------------------------------------------ c31.cond family: unhygienic splices as CONDITIONS
+# stmt  [ifc.<form>, cond, t, e]   form: if | unless | while | modif | modunless | and | or | nc
+# cond  ['e', expr] | ['not', c] | ['and', c, c] | ['or', c, c] | ['cu', c]      (cu = one unhygienic splice of c)
+# All locals are `Int?` (caller: `var a: Int? = 41` / `= nil`; expansion: `var x: Int? = 5`); nil is the model's 0, literals are
+# positive, so truthiness = the model's `> 0`.  No `+` (not defined on Int?), prints are `println("#{x}")`.
+
+COND_FORMS = ("if", "ifelse", "unless", "unlesselse", "while", "modif", "modunless", "and", "or", "nc")
+NEGATED_FORMS = ("unless", "modunless", "or", "nc")
+
+
+def uses_ifc(x):
+    if isinstance(x, str):
+        return x.startswith("ifc")
+    return any(uses_ifc(y) for y in x)
+
+
+def has_unhyg_cond(x):
+    if isinstance(x, str):
+        return False
+    if x[0].startswith("ifc") if isinstance(x[0], str) else False:
+        return has_unhyg_operand(x[1]) or "cu" in sx_str(x[1]).replace("(", " ").split() or any(has_unhyg_cond(y) for y in x[2:])
+    return any(has_unhyg_cond(y) for y in x[1:])
+
+
+def to_model(x):
+    """the program in the syntax of the model driver: every conditional form becomes (ifc c t e)"""
+    if isinstance(x, str):
+        return x
+    if isinstance(x[0], str) and x[0].startswith("ifc."):
+        form = x[0][4:]
+        c = x[1]
+        if form in NEGATED_FORMS:
+            c = ["not", c]
+        return ["ifc", c, to_model(x[2]), to_model(x[3])]
+    return [to_model(y) for y in x]
+
+
+def cond_names(c, acc):
+    if c[0] == "e":
+        names_of(c[1], acc)
+    else:
+        for y in c[1:]:
+            cond_names(y, acc)
+    return acc
+
+
+def gen_cond_family(rng, idx):
+    """one macro body whose conditional has a condition that is / contains unhygienic splices of caller identifiers, with
+    hygienic and unhygienic reads / assignments of the pool's names in the guarded region and after it; called from
+    scopes pre-defining every subset of the pool as nilable locals.  -> list of (suffix, program, in_method), dist"""
+    dist = {}
+    form = COND_FORMS[idx % len(COND_FORMS)]
+    a, b = pick2(rng)
+    leaf = lambda x: ["e", ["v", x]]
+    shapes = [
+        ("splice", ["cu", leaf(a)]),
+        ("not-splice", ["not", ["cu", leaf(a)]]),
+        ("splice-of-not", ["cu", ["not", leaf(a)]]),
+        ("splice-of-and", ["cu", ["and", leaf(a), leaf(b)]]),
+        ("and-of-splices", ["and", ["cu", leaf(a)], ["cu", leaf(b)]]),
+        ("splice-of-or", ["cu", ["or", leaf(a), leaf(b)]]),
+        ("or-of-splices", ["or", ["cu", leaf(a)], ["cu", leaf(b)]]),
+        ("splice-and-hygienic", ["and", ["cu", leaf(a)], leaf(b)]),
+        ("not-splice-of-and", ["not", ["cu", ["and", leaf(a), leaf(b)]]]),
+        ("expr-splice", ["e", ["u", ["v", a]]]),
+    ]
+    if form == "while":
+        shapes = [sh for sh in shapes if sh[0] in ("splice", "splice-of-and", "and-of-splices", "expr-splice")]
+    if form == "nc":
+        shapes = [sh for sh in shapes if sh[0] in ("splice", "expr-splice", "splice-of-or", "or-of-splices")]
+    sname, cond = shapes[(idx // len(COND_FORMS) + rng.below(len(shapes))) % len(shapes)]
+    cn = sorted(cond_names(cond, set()))
+    dist["form_" + form] = 1
+    dist["cond_" + sname] = 1
+
+    # 2 of 5 families are "leaky": hygienic uses of names the expansion does not declare (must be rejected); the others
+    # use hygienically only the locals the expansion declares (accepted when the caller defines what the splices read)
+    leaky = (idx + idx // len(COND_FORMS)) % 5 in (1, 3)
+    dist["family_hygienic_use_of_undeclared_name" if leaky else "family_hygienic_uses_declared_only"] = 1
+    if leaky:
+        bound = [rng.choice(POOL)] if rng.chance(1, 3) else []
+    else:
+        bound = [rng.choice(cn)] if rng.chance(1, 2) else [rng.choice(POOL)]
+        if rng.chance(1, 3):
+            bound.append(rng.choice([x for x in POOL if x not in bound]))
+
+    def name():
+        if not leaky:
+            return rng.choice(bound)
+        return rng.choice(cn) if rng.chance(3, 4) else rng.choice(POOL)
+
+    def use(hyg_only=False, expr_only=False):
+        c = rng.below(10)
+        if c < 4:
+            dist["hyg_read_in_region"] = dist.get("hyg_read_in_region", 0) + 1
+            return ["pr", ["v", name()]]
+        if c < 7:
+            dist["hyg_assign_in_region"] = dist.get("hyg_assign_in_region", 0) + 1
+            return ["set", name(), ["n", str(rng.range(1, 9))]]
+        if hyg_only:
+            return ["pr", ["v", name()]]
+        dist["unhyg_read_in_region"] = dist.get("unhyg_read_in_region", 0) + 1
+        return ["us", ["pr", ["v", rng.choice(cn) if rng.chance(3, 4) else rng.choice(POOL)]]]
+
+    body = []
+    for y in bound:
+        dist["expansion_binds_a_name"] = dist.get("expansion_binds_a_name", 0) + 1
+        body.append(["let", y, ["n", str(rng.range(1, 9))]])
+    single = form in ("modif", "modunless", "and", "or", "nc")
+    t = [use(hyg_only=True)] + ([] if single or rng.chance(1, 2) else [use()])
+    if form == "while":
+        t.append(["us", ["set", a, ["n", "0"]]])
+    e = "skip"
+    if form in ("ifelse", "unlesselse"):
+        e = ["seq", use()] + ([use()] if rng.chance(1, 3) else [])
+    head = {"ifelse": "if", "unlesselse": "unless"}.get(form, form)
+    body.append(["ifc." + head, cond, ["seq"] + t, e])
+    for _ in range(rng.below(3)):
+        dist["use_after_conditional"] = dist.get("use_after_conditional", 0) + 1
+        body.append(use())
+    body = ["seq"] + body
+    in_method = rng.chance(1, 3)
+    nil_name = rng.choice(POOL) if rng.chance(1, 2) else None
+    progs = []
+    for mask in range(8):
+        pre = [POOL[i] for i in range(3) if mask >> i & 1]
+        headl = [["let", x, ["n", "0" if x == nil_name else str(41 + int(x))]] for x in pre]
+        tail = [["pr", ["v", x]] for x in pre]
+        progs.append(("s%d" % mask, ["seq"] + headl + [["mac", body]] + tail, in_method))
+    return progs, dist
+
+
+def pick2(rng):
+    a = rng.choice(POOL)
+    b = rng.choice([x for x in POOL if x != a])
+    return a, b
+
+
 # ------------------------------------------------------------------ features (canonical classes of known defect shapes)
 
 def has_unhyg_operand(x, parent=None):
@@ -534,7 +738,7 @@ def shadowing_decl(x, frames=None):
 
 # ------------------------------------------------------------------ running and comparing
 
-def observe(res):
+def observe(res, nil_ok=False):
     """(rc, out, cls) of an elk run -> ('A', [ints]) | ('R', reasons) | ('X', description)"""
     rc, out, cls = res
     if cls in ("go_panic", "go_fatal", "signal", "timeout"):
@@ -552,6 +756,8 @@ def observe(res):
         l = l.strip()
         if re.fullmatch(r"-?\d+", l):
             vals.append(int(l))
+        elif nil_ok and l == "nil":
+            vals.append(0)
         elif l:
             return "X", "output:unparsable:" + l[:40]
     return "A", vals
@@ -560,10 +766,10 @@ def observe(res):
 EXPECTED_REASONS = ("undefined local `..`", "no overload of `..` matches the given arguments")
 
 
-def run_cases(ctx, elk, m, cases, tag):
+def run_cases(ctx, elk, m, cases, tag, STREAM=STREAM):
     """cases: list of (cid, program, in_method). Returns stats."""
     ids = [c[0] for c in cases]
-    inputs = {c[0]: "%d %s" % (K, sx_str(c[1])) for c in cases}
+    inputs = {c[0]: "%d %s" % (K, sx_str(to_model(c[1]))) for c in cases}
     rc, exp, mout = vlib.run_model(m, ids, inputs)
     if rc != 0:
         ctx.broke("correspondence %s: model driver exited %d" % (STREAM, rc), mout[-2000:])
@@ -582,8 +788,8 @@ def run_cases(ctx, elk, m, cases, tag):
                       "Dynamic cannot run", "%s -> %s" % (inputs[cid], e))
             continue
         model[cid] = (v, [int(x) for x in o.split()] if v == "A" else None, sx_parse(expanded))
-        progs.append((cid + "_m", elk_program(prog, in_method)))
-        progs.append((cid + "_h", elk_program(model[cid][2], in_method)))
+        progs.append((cid + "_m", elk_program(prog, in_method, uses_ifc(prog))))
+        progs.append((cid + "_h", elk_program(model[cid][2], in_method, uses_ifc(prog))))
     res = vlib.run_programs(elk, progs, os.path.join(ctx.workdir, tag), timeout=90, env={"GOMAXPROCS": "4"})
     slow = [(pid, src) for pid, src in progs if res[pid][2] == "timeout"]
     if slow:
@@ -598,8 +804,8 @@ def run_cases(ctx, elk, m, cases, tag):
         st["programs"] += 1
         st["distinct"].add(inputs[cid] + ("#m" if in_method else ""))
         mv, mo, expanded = model[cid]
-        om = observe(res[cid + "_m"])
-        oh = observe(res[cid + "_h"])
+        om = observe(res[cid + "_m"], uses_ifc(prog))
+        oh = observe(res[cid + "_h"], uses_ifc(prog))
         if mv == "A":
             st["accepted"] += 1
             st["printed"] += len(mo)
@@ -634,6 +840,8 @@ def run_cases(ctx, elk, m, cases, tag):
         crash = [o[1] for o in (om, oh) if o[0] == "X"]
         if any("IsStatic" in c for c in crash):
             key = "unhygienic-operand:UnhygienicNode.IsStatic-infinite-recursion"
+        elif has_unhyg_cond(prog) and mv == "R" and om[0] == "A" and oh[0] == "R":
+            key = "unhygienic-condition:hygienic-name-in-guarded-region-resolves-caller-local:accepted"
         elif shadowing_decl(prog):
             key = "declaration-initialiser-reads-shadowed-outer-local:compiler-defines-local-first"
         elif has_unhyg_stmt(prog) and om != oh:
@@ -776,6 +984,46 @@ def run_uninit(ctx, elk):
                dict(templates=dist, programs=len(cases), elk_runs=len(progs), failing_programs=bad, corpus_programs=ncorpus))
 
 
+COND_STREAM = "c31.cond"
+
+
+def run_cond(ctx, elk, m):
+    rng = ctx.rng(COND_STREAM)
+    corpus = load_corpus(os.path.join(vlib.ROOT, "corpus", "C31.cond.txt"))
+    nfam = ctx.n(20, 200)
+    cases, dist = [], {}
+    for i in range(nfam):
+        progs, d = gen_cond_family(rng, i)
+        for k, v in d.items():
+            dist[k] = dist.get(k, 0) + v
+        for suffix, prog, in_method in progs:
+            cases.append(("c%d%s" % (i, suffix), prog, in_method))
+    st_c = run_cases(ctx, elk, m, corpus, "cond_corpus", COND_STREAM) if corpus else None
+    st = run_cases(ctx, elk, m, cases, "cond_gen", COND_STREAM)
+    tot = lambda k: st[k] + (st_c[k] if st_c else 0)
+    ctx.stream(COND_STREAM, tot("programs"), len(st["distinct"] | (st_c["distinct"] if st_c else set())),
+               "seeded macro bodies over 3 nilable names (`var a: Int? = 41` / `= nil`; nil is the model's 0, truthiness is "
+               "the model's > 0) made of an optional local of the expansion, ONE conditional and 0-2 uses after it; the "
+               "conditional cycles through if / if-else / unless / unless-else / while (body ends with an unhygienic `a = nil`, "
+               "so it runs at most once) / `s if c` / `s unless c` / `c && s` / `c || s` / `c ?? s`, its condition through 10 "
+               "shapes that are or contain unhygienic splices of caller identifiers (!{u a}, !!{u a}, !{u !a}, !{u a && b}, "
+               "!{u a} && !{u b}, !{u a || b}, !{u a} || !{u b}, !{u a} && b, !!{u a && b}); the guarded region and the code "
+               "after it read (println) and assign the condition's names (3/4) or any pool name HYGIENICALLY, plus unhygienic "
+               "reads; each body is called from a scope (top level or method) pre-defining every subset of the 3 names. "
+               "Expected verdict and output come from the extracted model (Model/C31_Cond.v ifc compiled to the scope "
+               "model's SIf; C31_unhyg_condition_no_leak); evaluation = one program for which the macro version on elk, the "
+               "hand expansion (extracted expand_all, nested plain ifs with renamed locals) on elk and the model are "
+               "compared on verdict and printed values; non-trivial = distinct program text",
+               [{"program": sx_str(p), "in_method": im} for _, p, im in cases[:3]],
+               dict(constructs=dist, programs=tot("programs"), model_accepted=tot("accepted"),
+                    model_rejected=tot("rejected"), values_compared=tot("printed"), elk_runs=tot("elk_runs"),
+                    mismatching_programs=tot("mismatches"), crashing_programs=tot("crashes"),
+                    reject_reasons=st["reject_reasons"], corpus_programs=(st_c["programs"] if st_c else 0)))
+    if st["programs"] and st["accepted"] * 10 < st["programs"]:
+        ctx.broke("correspondence %s: fewer than 10%% of the generated programs are accepted by the model (%d of %d)"
+                  % (COND_STREAM, st["accepted"], st["programs"]))
+
+
 def load_corpus(path):
     out = []
     if os.path.exists(path):
@@ -806,7 +1054,13 @@ def run(ctx):
         "reached exactly by unhygienic resolution; a boundary is equal (verdict, output, final caller environment) to "
         "a plain block around the body with the expansion's locals renamed by any fresh injective renaming, and so is the "
         "whole program with every boundary expanded that way (expand_all); a program "
-        "accepted by the checker mode never meets an unresolved name in the execution mode. NOT proved: "
+        "accepted by the checker mode never meets an unresolved name in the execution mode; a conditional whose condition "
+        "is or contains unhygienic splices (Model/C31_Cond.v: truthiness, !, &&, ||, unhygienic splice of a condition, "
+        "compiled to nested SIf) does not make a name the expansion does not declare resolvable in its branches or "
+        "after it: a hygienic read / assignment of such a name in the guarded region is rejected whatever the caller "
+        "defines (C31_unhyg_condition_no_leak; stream c31.cond runs if / unless / while / modifier / && / || / ?? forms "
+        "with nilable locals - the surface forms are mapped to the model's conditional by the generator, nil is the "
+        "model's 0, narrowing of types is not modelled). NOT proved: "
         "that types/checker and the bytecode compiler implement this model - that is compared on every run by executing "
         "seeded macro programs with systematically colliding names, and their hand-written expansions produced by the "
         "extracted `expand_all` (proved equal to the macro program on the model, C31_expand_all_equiv; the driver also "
@@ -856,6 +1110,7 @@ def run(ctx):
                     model_rejected=tot("rejected"), values_compared=tot("printed"), elk_runs=tot("elk_runs"),
                     mismatching_programs=tot("mismatches"), crashing_programs=tot("crashes"),
                     reject_reasons=st["reject_reasons"], corpus_programs=(st_c["programs"] if st_c else 0)))
+    run_cond(ctx, elk, m)
     run_uninit(ctx, elk)
     if st["programs"] and st["accepted"] * 5 < st["programs"]:
         ctx.broke("correspondence %s: fewer than 20%% of the generated programs are accepted by the model (%d of %d)"
